@@ -34,6 +34,7 @@ type HistOpts struct {
 	PITReads     bool
 	MaxPostings  int
 	Enforcement  string
+	Bulks        bool // atomic bulks (with at most one failing element) are among the writes
 	ViaHTTP      bool // writes and reads go through the real HTTP API (v2 routes) instead of the controller chain
 	SecondLedger bool // in half of the cases a second ledger shares the bucket and receives a quarter of the writes
 }
@@ -332,6 +333,11 @@ func (w *World) Drive(t *rapid.T, l, other *LState, o HistOpts) *HistorySummary 
 				}
 				return out.Kind != ErrNone || r.DryRun
 			})
+		}
+	}
+	if o.Bulks {
+		actions["atomicBulk"] = func(t *rapid.T) {
+			sum.Commits += w.AtomicBulk(t, l)
 		}
 	}
 	if o.Reverts {
